@@ -275,6 +275,7 @@ def work(idx):
         out["uses_two_point_function"] = uses_tp
         out["solve_after_substitution"] = solve_after_subs and not uses_tp
         uses_tp = uses_tp or solve_after_subs      # both classes get exact rational tuples as their decisive tie
+        ex.precision_class = uses_tp
         plan = N.leaf_plan(ex)
         unknown = [s for s, (d, how, _g) in plan.items() if d is None and how in ("quantity", "either")]
         cands = [None] + ([getattr(N.U, c) for c in N.CANDIDATE_DIMS] if unknown else [])
